@@ -315,14 +315,15 @@ def multiprocessing_run(
             # Save something to disk to mark that this was completed successfully
             success_text = f'  Run: {this_run_num} completed successfully. ' \
                            f'Taking {time.time() - run_time_init:0.2f} seconds.\n'
+            # Save key data to disk. This is done before the success marker is written: a restarted study treats the
+            #    marker as proof that the result file exists and is complete.
+            np.savez(os.path.join(this_run_dir, f'mp_results.npz'), **result)
+
             with open(os.path.join(this_run_dir, 'mp_success.log'), 'w') as success_file:
                 success_file.write(success_text)
 
             with open(mp_log_path, 'a') as mp_file:
                 mp_file.write(success_text)
-
-            # Save key data to disk
-            np.savez(os.path.join(this_run_dir, f'mp_results.npz'), **result)
 
         return MultiprocessingOutput(case_number=this_run_num, input_index=run_indicies, result=result)
 
